@@ -1,4 +1,6 @@
 /* C11 - channels and signals: every message delivered once, in order, capacity respected, no stranded peer */
+#include <unistd.h>
+
 #include "common.h"
 #include "fiber_manager.h"
 #include "fiber_channel.h"
@@ -82,10 +84,37 @@ static void* sender(void* p) {
   }
   return NULL;
 }
+/* optionally the receiver goes through another suspension mechanism between two receives: it blocks on a
+ * descriptor that a helper fiber closes (the mechanisms share per-fiber scratch state) */
+static int pre_fd_wait, fdw_fd[2];
+static volatile int fdw_in, fdw_done;
+static fiber_t* fdw_fiber;
+static NS int g_fdw_blocked(void) { return fdw_in && sim_fiber_lib_state(fdw_fiber) == FIBER_STATE_WAITING && sim_fiber_is_saved(fdw_fiber); }
+static void* fd_closer(void* p) {
+  (void)p;
+  while (!fdw_done) {
+    if (g_fdw_blocked()) {
+      fdw_in = 0;
+      close(fdw_fd[0]);
+    }
+    RS0(fiber_yield);
+  }
+  return NULL;
+}
+static void fd_wait_once(void) {
+  unsigned char b[2];
+  if (pipe(fdw_fd)) sim_violation("SIM-pipe", "pipe failed");
+  fdw_in = 1;
+  ssize_t r = read(fdw_fd[0], b, 1); /* resumed by the helper's close() */
+  (void)r;
+  fdw_in = 0;
+  close(fdw_fd[1]);
+}
 static void* receiver(void* p) {
   const int r = (int)(intptr_t)p;
   for (int i = 0; i < rquota[r]; i++) {
     long id;
+    if (pre_fd_wait && r == 0 && i < 2) fd_wait_once();
     g_recv_begin();
     int sw = g_sw();
     switch (kind) {
@@ -137,6 +166,7 @@ static void* raiser(void* p) {
 static void* waiter(void* p) {
   (void)p;
   int seen = 0;
+  if (pre_fd_wait) fd_wait_once();
   while (seen < total) {
     int pr = atomic_load(&produced);
     if (pr > seen) {
@@ -160,6 +190,7 @@ void h_run(void) {
   cap = 1 << p2;
   yield_s = wl_pct(40);
   yield_r = wl_pct(40);
+  pre_fd_wait = wl_pct(20);
   total = 0;
   const int maxmsg = sim_tier_thorough() ? MAXMSG : 5;
   for (int s = 0; s < nsend; s++) {
@@ -172,7 +203,7 @@ void h_run(void) {
     left -= rquota[r];
   }
   static const char* const kn[] = {"bounded+signal", "bounded(spin)", "unbounded", "unbounded-sp", "multi", "raw-signal"};
-  sim_describe("threads=%d %s senders=%d receivers=%d capacity=%d messages=%d yield_s=%d yield_r=%d preempt=1/%d", c.threads, kn[kind], nsend, nrecv, cap, total, yield_s, yield_r, c.preempt_inv);
+  sim_describe("threads=%d %s senders=%d receivers=%d capacity=%d messages=%d yield_s=%d yield_r=%d fd_wait_first=%d preempt=1/%d", c.threads, kn[kind], nsend, nrecv, cap, total, yield_s, yield_r, pre_fd_wait, c.preempt_inv);
   sim_fiber_mode();
   fiber_manager_init(c.threads);
   fiber_signal_init(&sig);
@@ -193,15 +224,24 @@ void h_run(void) {
       mch = fiber_multi_channel_create(p2);
       break;
   }
-  fiber_t* f[MAXS + MAXR];
+  fiber_t* f[MAXS + MAXR + 1];
   int n = 0;
   int recv_first = wl_pct(50);
   if (recv_first)
-    for (int r = 0; r < nrecv; r++) f[n++] = fiber_create(STK, kind == K_RAW_SIGNAL ? waiter : receiver, (void*)(intptr_t)r);
+    for (int r = 0; r < nrecv; r++) {
+      f[n++] = fiber_create(STK, kind == K_RAW_SIGNAL ? waiter : receiver, (void*)(intptr_t)r);
+      if (r == 0) fdw_fiber = f[n - 1];
+    }
   for (int s = 0; s < nsend; s++) f[n++] = fiber_create(STK, kind == K_RAW_SIGNAL ? raiser : sender, (void*)(intptr_t)s);
   if (!recv_first)
-    for (int r = 0; r < nrecv; r++) f[n++] = fiber_create(STK, kind == K_RAW_SIGNAL ? waiter : receiver, (void*)(intptr_t)r);
+    for (int r = 0; r < nrecv; r++) {
+      f[n++] = fiber_create(STK, kind == K_RAW_SIGNAL ? waiter : receiver, (void*)(intptr_t)r);
+      if (r == 0) fdw_fiber = f[n - 1];
+    }
+  fiber_t* closer = pre_fd_wait ? fiber_create(STK, fd_closer, NULL) : NULL;
   for (int i = 0; i < n; i++) fiber_join(f[i], NULL);
+  fdw_done = 1;
+  if (closer) fiber_join(closer, NULL);
   if (kind != K_RAW_SIGNAL) {
     if (recv_done != total) sim_violation("C11-lost-message", "%d of %d messages received", recv_done, total);
     for (int s = 0; s < nsend; s++)
